@@ -919,6 +919,11 @@ impl<'cmd> Parser<'cmd> {
 
         let skip = self.flag_subcmd_skip;
         self.flag_subcmd_skip = 0;
+        if skip == 0 {
+            // Not resuming a cluster: a flag subcommand position remembered from an earlier
+            // cluster says nothing about this one
+            self.flag_subcmd_at = None;
+        }
         let res = short_arg.advance_by(skip);
         debug_assert_eq!(
             res,
